@@ -51,6 +51,18 @@ class C07(conncheck.ConnCheck):
                         apps = [a] if a == b else [a, b]
                         out.append({'name': 't/%s/%s' % (hs, '+'.join(apps)), 'server': SERVER_FULL, 'handshake': [hs], 'app': apps,
                                     'depth': None, 'max_dev': 2})
+            full = ['send_text', 'send_binary', 'send_ping', 'send_pong', 'close', 'close-3001']
+            for i, a in enumerate(full):
+                for b in full[i + 1:]:
+                    if a in APPS and b in APPS:
+                        continue
+                    out.append({'name': 't/hs-ok/%s+%s' % (a, b), 'server': SERVER_FULL, 'handshake': ['hs-ok'], 'app': [a, b], 'depth': None, 'max_dev': 2})
+            out.append({'name': 't3/send_text+close', 'server': SERVER_FULL, 'handshake': ['hs-ok'], 'app': ['send_text', 'close'], 'depth': None, 'max_dev': 3})
+            out.append({'name': 't/no-autopong', 'server': SERVER_FULL + ['ping-ping'], 'handshake': ['hs-ok'], 'app': ['send_pong', 'close'], 'depth': None,
+                        'max_dev': 2, 'auto_pong': False})
+            out.append({'name': 't/wide', 'server': SERVER_FULL + ['text-euro', 'empty-text', 'ping-empty', 'ping-125', 'ping-ping', 'ping-text-close',
+                                                                  'close-3000', 'ping-then-bad'],
+                        'handshake': ['hs-ok', 'hs-deflate'], 'app': ['close'], 'depth': None, 'max_dev': 1})
         for f in ('resolve', 'socket', 'connect-all', 'connect-first', 'request-write', 'request-write-arbitrary'):
             out.append({'name': 'connect-fault/' + f, 'server': ['eof', 'text', 'close-1000'], 'handshake': ['hs-ok'],
                         'app': ['close', 'send_text'], 'depth': 2, 'max_dev': 1, 'connect_fault': f})
